@@ -6,11 +6,15 @@ CONSTANTS
   SdFields <- MCSdFields
   SuFields <- MCSuFields
   MaxLen = 3
-  Variants = 2
+  Shapes <- MCShapes
+  Targets <- MCTargets
+  EmptyDiffShapes <- MCEmptyDiffShapes
+  ClassShapes <- MCClassShapes
   MaxPending = 2
   MaxSteps = 14
   SuccessionChecked = TRUE
   RootChecked = TRUE
+  RootCheckedOnEmptyDiff = TRUE
   TxHashesChecked = TRUE
   WriteBeforeChecks = FALSE
 INIT MBTInit
